@@ -858,7 +858,7 @@ Lemma killer_finish_partial : forall s o s', step s (Finish (TRoot RKiller) o) =
   swept s = true /\ forall d, In d (asked s) -> is_done (ph s (TDaemon d)) = true \/ In d (abandoned s).
 Proof.
   intros s o s' H Hp Ho. unfold step in H. rewrite Hp in H.
-  destruct (outcome_eqb o o && finish_ready s (TRoot RKiller) o) eqn:E; [|discriminate H].
+  match type of H with context [negb ?c] => destruct c eqn:E; [|discriminate H] end.
   apply andb_true_iff in E as [_ E]. unfold finish_ready in E.
   destruct o; try (exfalso; eapply Ho; reflexivity);
     apply andb_true_iff in E as [E1 E2]; (split; [exact E1|]); intros d Hin;
@@ -871,7 +871,7 @@ Lemma keepalive_finish_partial : forall s k o s', step s (Finish (TKeepalive k) 
   ph s (TKeepalive k) = PEnding o -> In k (withdrawn s).
 Proof.
   intros s k o s' H Hp. unfold step in H. rewrite Hp in H.
-  destruct (outcome_eqb o o && finish_ready s (TKeepalive k) o) eqn:E; [|discriminate H].
+  match type of H with context [negb ?c] => destruct c eqn:E; [|discriminate H] end.
   apply andb_true_iff in E as [_ E]. unfold finish_ready, mem_nat in E.
   apply existsb_exists in E as (x&Hx&Ex). apply Nat.eqb_eq in Ex. now subst.
 Qed.
@@ -882,7 +882,7 @@ Lemma orch_finish_partial : forall s s', step s (Finish (TRoot ROrch) OCancelled
   forall t, In t (spawned s) -> is_ensemble t = true -> is_done (ph s t) = true.
 Proof.
   intros s s' H Hp t Hin He. unfold step in H. rewrite Hp in H.
-  destruct (outcome_eqb OCancelled OCancelled && finish_ready s (TRoot ROrch) OCancelled) eqn:E; [|discriminate H].
+  match type of H with context [negb ?c] => destruct c eqn:E; [|discriminate H] end.
   apply andb_true_iff in E as [_ E]. unfold finish_ready in E. apply andb_true_iff in E as [_ E].
   unfold all_done in E. rewrite forallb_forall in E. apply E. apply filter_In. auto.
 Qed.
